@@ -43,7 +43,12 @@ type Sim struct {
 	// sub-simulation on a recovered node: blocks it already held at reopen
 	preKnown map[*MBlock]bool
 	stuck    *MBlock
+
+	hdr     *hdrState // headers-first model of the current node instance
+	everInv bool      // InvalidateBlock was used in this run
 }
+
+func btcutilBlock(b *MBlock) *btcutil.Block { return btcutil.NewBlock(b.Msg) }
 
 // commits returns the number of completed database commits (memdb only).
 func (s *Sim) commits() int {
